@@ -37,10 +37,11 @@ UNIT_DEFAULT_PROPS["U15"] = ["C02"]
 UNIT_DEFAULT_PROPS["U20"] = ["C04"]
 UNIT_DEFAULT_PROPS["U21"] = ["C06"]
 UNIT_DEFAULT_PROPS["U22"] = ["C04"]
+UNIT_DEFAULT_PROPS["U23"] = ["C02"]
 
 RUNTIME = ["U6", "U6b", "U7", "U8"] + U9
 # every unit of the run-time side: setup, queuer, stream poll, item closures, prologues, options builder
-RUNTIME_ALL = ["U6", "U6b", "U7", "U8"] + U9 + U16 + ["U17"]
+RUNTIME_ALL = ["U6", "U6b", "U7", "U8"] + U9 + U16 + ["U17", "U23"]
 
 # property -> units run (all feature sets of the unit), units whose panic-freedom counts for it.
 # The unit lists are deliberately broad (everything the property's argument passes through): a failing obligation of
